@@ -38,6 +38,10 @@ pub enum WOp {
     Ser(u8, PointR, bool),
     /// pairing of (+-g1, +-g2) - needs no point pool
     PairGen(bool, bool),
+    /// a call OUTSIDE the documented domain whose panic (if any) is caught, as a long-lived worker would:
+    /// 0 = sum_of_products with bit 255 set in a later scalar, 1 = expand_message_xmd beyond 255 blocks.
+    /// Its own outcome is not compared; the operations that follow must be unaffected.
+    Rejected(u8, u8),
     /// checked decoding of the compressed / uncompressed encoding of +-generator (subgroup test inside)
     DecodeGen(u8, bool, bool),
 }
@@ -69,6 +73,7 @@ fn simple_op() -> BoxedStrategy<WOp> {
         1 => (0u8..POOL_SUB as u8, 0u8..POOL_SUB as u8).prop_map(|(i, j)| WOp::Pairing(i, j)),
         2 => (0u8..2, any::<bool>(), 0u8..4, msg_strategy(), dst_strategy()).prop_map(|(g, ro, e, m, d)| WOp::Hash(g, ro, e, m, d)),
         2 => (0u8..2, point_strategy(false), any::<bool>()).prop_map(|(g, p, c)| WOp::Ser(g, p, c)),
+        1 => (0u8..2, 0u8..2).prop_map(|(k, g)| WOp::Rejected(k, g)),
     ]
     .boxed()
 }
@@ -387,6 +392,23 @@ fn exec<'a>(op: &WOp, sh: &Shared<'a>, lo: &mut Local<'a>) -> Result<Vec<u8>, St
             let e = cr("pairing", || Bls12::pairing(p, q))?;
             put_fq12(&mut out, &e);
         }
+        WOp::Rejected(kind, g) => {
+            let panicked = if *kind % 2 == 0 {
+                let k1 = [u64::MAX, 7, 9, 0x4000_0000_0000_0001];
+                let k2 = [3, 0, 0, 0x8000_0000_0000_0000];
+                if *g % 2 == 0 {
+                    let b = vec![aff_c::<G1m>(&G1m::gen()); 3];
+                    crate::engine::cr_panics(|| G1m::op_sum_of_products(&b, &[&k1, &k1, &k2]))
+                } else {
+                    let b = vec![aff_c::<G2m>(&G2m::gen()); 3];
+                    crate::engine::cr_panics(|| G2m::op_sum_of_products(&b, &[&k1, &k1, &k2]))
+                }
+            } else {
+                crate::engine::cr_panics(|| super::c13::crate_expand(refmodel::h2c::Expander::XmdSha256, b"m", b"d", 9000))
+            };
+            out.push(0xee);
+            let _ = panicked; // not compared: the outcome of an out-of-domain call is unspecified
+        }
         WOp::PairGen(np, nq) => {
             let p = if *np { PointR::Neg(Box::new(PointR::Gen)) } else { PointR::Gen };
             let q = if *nq { PointR::Neg(Box::new(PointR::Gen)) } else { PointR::Gen };
@@ -547,6 +569,7 @@ fn lite_op() -> BoxedStrategy<WOp> {
         1 => (0u8..2, proptest::collection::vec((gp(), scalar_strategy()), 0..4)).prop_map(|(g, v)| WOp::Msm(g, v)),
         1 => (fq2_strategy(), fq2_strategy()).prop_map(|(a, b)| WOp::Fq2Arith(a, b)),
         1 => fq2_strategy().prop_map(WOp::Sqrt),
+        1 => (0u8..2, 0u8..2).prop_map(|(k, g)| WOp::Rejected(k, g)),
     ]
     .boxed()
 }
@@ -758,7 +781,7 @@ fn check_burst(b: &Burst, info: &mut Info) -> Result<(), String> {
 pub fn def() -> PropDef {
     PropDef {
         id: "C20",
-        rule: "workloads of 2..13 operations drawn from the other properties' operation sets (Fq2 / Fq12 arithmetic, square roots, group operations incl. batch normalization, every scalar-multiplication path, wNAF contexts, sum_of_products, Miller loop + final exponentiation, hashing to both groups, (de)serialization), a generated assignment to 2..16 threads released by a barrier, per-thread prefixes of unrelated calls, 1..3 repetitions; all threads borrow one wNAF window table and one prepared (G1, G2) pair. Oracle: bit-identical results (raw X, Y, Z coordinates / field coefficients) between a sequential run, a second sequential run in reverse order with other prefixes, and every concurrent run; no panic; completion (watchdog). Bursts: 4..16 threads hammer 2..4 operations over a handful of shared points in tight loops. Non-trivial = at least two threads use the borrowed shared state (workloads) / at least two operations in the burst; distinct = distinct cases",
+        rule: "workloads of 2..13 operations drawn from the other properties' operation sets (Fq2 / Fq12 arithmetic, square roots, group operations incl. batch normalization, every scalar-multiplication path, wNAF contexts, sum_of_products, Miller loop + final exponentiation, hashing to both groups, (de)serialization, and occasional out-of-domain calls whose panic is caught), a generated assignment to 2..16 threads released by a barrier, per-thread prefixes of unrelated calls, 1..3 repetitions; all threads borrow one wNAF window table and one prepared (G1, G2) pair. Oracle: bit-identical results (raw X, Y, Z coordinates / field coefficients) between a sequential run, a second sequential run in reverse order with other prefixes, and every concurrent run; no panic; completion (watchdog). Bursts: 4..16 threads hammer 2..4 operations over a handful of shared points in tight loops. Non-trivial = at least two threads use the borrowed shared state (workloads) / at least two operations in the burst; distinct = distinct cases",
         needs_pairing: false,
         subs: vec![
             Box::new(Sub { name: "workloads", rule: "sequential == re-ordered sequential == concurrent, bit for bit", quick: 640, thorough: 6000, strategy: || boxed(workload_strategy()), check: check_workload }),
